@@ -163,3 +163,55 @@ Proof.
   intros f xs H. induction H as [| x xs Hx _ IH]; [reflexivity |].
   cbn [entries_k]. rewrite take_match_here by exact Hx. exact IH.
 Qed.
+
+Lemma feq_refl : forall n m, feq n m n m = true.
+Proof.
+  intros n m. unfold feq. destruct (N.eqb m 0) eqn:E; cbn; [reflexivity |].
+  rewrite Bool.eqb_reflx, N.eqb_refl. reflexivity.
+Qed.
+
+Lemma bytes_eqb_refl : forall s, bytes_eqb s s = true.
+Proof. induction s as [| b s IH]; cbn; [reflexivity |]. rewrite N.eqb_refl. exact IH. Qed.
+
+Lemma leaf_eq_refl : forall k v, basic_ok k v = true -> leaf_eq k v v = Some true.
+Proof.
+  intros k v H. destruct k, v; cbn in H; try discriminate; cbn.
+  - rewrite Bool.eqb_reflx. reflexivity.
+  - rewrite Z.eqb_refl. reflexivity.
+  - rewrite feq_refl. reflexivity.
+  - rewrite feq_refl. reflexivity.
+  - rewrite !feq_refl. reflexivity.
+  - rewrite !feq_refl. reflexivity.
+  - rewrite bytes_eqb_refl. reflexivity.
+Qed.
+
+Lemma all2o_refl : forall f xs, Forall (fun x => f x x = Some true) xs -> all2o f xs xs = Some true.
+Proof.
+  intros f xs H. induction H as [| x xs Hx _ IH]; [reflexivity |].
+  cbn [all2o]. rewrite Hx, IH. reflexivity.
+Qed.
+
+(* every typed value is structurally equal to itself (in particular: to a copy with other addresses) *)
+Lemma spec_eqk_refl : forall v e t, has_typek e t v = true -> spec_eqk e t v v = Some true.
+Proof.
+  induction v using val_ind'; intros e t HT;
+    unfold has_typek in HT; fold has_typek in HT; unfold spec_eqk; fold spec_eqk;
+    destruct (resolve e t) as [r |]; try discriminate;
+    destruct (r_node r) as [k | | | rt | et | len et | kt vt | fds] eqn:EN; try discriminate;
+    try (apply leaf_eq_refl; exact HT); try reflexivity.
+  - apply IHv. exact HT.
+  - apply Bool.andb_true_iff in HT as [HE _].
+    apply all2o_refl. rewrite Forall_forall in *. intros x Hx.
+    apply H; [exact Hx |]. rewrite forallb_forall in HE. apply HE. exact Hx.
+  - apply Bool.andb_true_iff in HT as [HT HE]. apply Bool.andb_true_iff in HT as [_ _].
+    apply entries_k_refl. rewrite Forall_forall in *. intros kv Hkv.
+    rewrite forallb_forall in HE. specialize (HE kv Hkv). apply Bool.andb_true_iff in HE as [Hk Hv].
+    destruct (H kv Hkv) as [IHk IHv]. rewrite (IHk _ _ Hk), (IHv _ _ Hv). reflexivity.
+  - apply Bool.andb_true_iff in HT as [_ HE].
+    apply all2o_refl. rewrite Forall_forall in *. intros x Hx.
+    apply H; [exact Hx |]. rewrite forallb_forall in HE. apply HE. exact Hx.
+  - clear EN. revert fds HT. induction H as [| x xs Hx _ IH]; intros fds HT.
+    + destruct fds; [reflexivity | discriminate].
+    + destruct fds as [| fd fds]; [discriminate |]. cbn in HT. apply Bool.andb_true_iff in HT as [H1 H2].
+      cbn [fields_o]. rewrite (Hx _ _ H1). rewrite (IH _ H2). reflexivity.
+Qed.
